@@ -427,3 +427,32 @@ def boundary_scripts():
         if n % 3 == 0:
             out.append(BOUNDARY_PRELUDE + "while True:\n    " + line + "\n    sleep(5)\n")
     return out
+
+
+def helper_use_site_scripts():
+    """Support-code use sites: an expression that needs a stitched-in runtime snippet (`len()` of a string / list, list literals, list
+    methods) occurs ONLY inside a user function, and that function is reached in an unusual way - it is recursive (use in the base case or
+    in the recursive arm), it is called only from another function, only from the main loop, with several argument types, or it both
+    recurses and is called from a second helper. Whatever the sketch calls must be declared in the sketch (C06)."""
+    uses = [
+        ("s", '"ab"', 's + "x"', "len(s)"),
+        ("xs", "[1, 2]", "xs", "len(xs)"),
+        ("s", '"q"', 's + "y"', 'len(s + "z") + len("k")'),
+        ("xs", "[4, 5, 6]", "xs", "xs[len(xs) - 1]"),
+    ]
+    out = []
+    for p, arg, step, use in uses:
+        out.append(HDR + f"def depth({p}, n):\n    if n > 3:\n        return {use}\n    return depth({step}, n + 1)\n\nd = depth({arg}, 0)\nmon.write(d)\n")
+        out.append(HDR + f"def depth({p}, n):\n    if n > 3:\n        return 0\n    return {use} + depth({step}, n + 1)\n\nd = depth({arg}, 0)\nmon.write(d)\nwhile True:\n    d = d + 1\n    sleep(5)\n")
+        out.append(HDR + f"def inner({p}):\n    return {use}\n\ndef outer({p}):\n    return inner({p}) + 1\n\nd = outer({arg})\nmon.write(d)\n")
+        out.append(HDR + f"def size({p}):\n    return {use}\n\nv = {arg}\nwhile True:\n    d = size(v)\n    mon.write(d)\n    sleep(5)\n")
+        out.append(HDR + f"def walk({p}, n):\n    if n <= 0:\n        return {use}\n    return walk({step}, n - 1)\n\ndef twice({p}):\n    return walk({p}, 1) + walk({p}, 2)\n\nd = twice({arg})\nmon.write(d)\n")
+        out.append(HDR + f"def pick({p}, k):\n    if k > 1:\n        return k\n    return {use}\n\nd = pick({arg}, 1)\ne = pick({arg}, 2.5)\nmon.write(d)\nmon.write(e)\n")
+    # list literals / list methods only inside a recursive or indirectly called function
+    out.append(HDR + "def fill(n):\n    if n <= 0:\n        v = [n, n + 1]\n        return v[1]\n    return fill(n - 1)\n\nd = fill(2)\nmon.write(d)\n")
+    out.append(HDR + "acc = [0]\ndef grow(n):\n    if n <= 0:\n        return len(acc)\n    acc.append(n)\n    return grow(n - 1)\n\nd = grow(3)\nmon.write(d)\n")
+    out.append(HDR + "def mk(n):\n    v = [n, n * 2, n * 3]\n    return v[2]\n\ndef via(n):\n    return mk(n) + mk(n + 1)\n\nwhile True:\n    d = via(1)\n    mon.write(d)\n    sleep(5)\n")
+    # placements that do not compile on the unchanged tree are findings of their own (KF-len-of-parameter-default-variant,
+    # KF-helper-variants-ambiguous-overload: witnesses run by C06); the family keeps the placements that are sound today
+    keep = (0, 1, 3, 4, 9, 12, 13, 14, 15, 16, 21, 24, 25, 26)
+    return [out[k] for k in keep]
